@@ -89,6 +89,25 @@ def validObj (sh : Shape) : Obj → Bool
   | .psd x => psValidB io (dmodelValidB io sh.S sh.A) sh.S sh.A sh.O x
   | .vec v => v.length == sh.S
 
+/-! the hypothesis `IsDbl` of the `*_final` round-trip theorems, evaluated on every number of a generated object
+    (`isDoubleB_iff_IsPosDbl`: the executable predicate is the structural one) -/
+def matVals (m : Mat Rat) : List Rat := m.flatMap id
+def spVals (m : SpMat Rat) : List Rat := m.map (·.v)
+def dmodelVals (m : DModel Rat) : List Rat := m.discount :: (m.T.flatMap matVals ++ matVals m.R)
+def smodelVals (m : SModel Rat) : List Rat := m.discount :: (m.T.flatMap spVals ++ spVals m.R)
+def objValues : Obj → List Rat
+  | .dmodel m => dmodelVals m
+  | .smodel m => smodelVals m
+  | .dexp e => matVals e.rewards ++ matVals e.m2
+  | .sexp e => spVals e.rewards ++ spVals e.m2
+  | .mpol m => matVals m
+  | .ppol vf => vf.flatMap (fun l => l.flatMap (·.values))
+  | .pdd x => dmodelVals x.1 ++ x.2.flatMap matVals
+  | .pss x => smodelVals x.1 ++ x.2.flatMap spVals
+  | .pds x => smodelVals x.1 ++ x.2.flatMap matVals
+  | .psd x => dmodelVals x.1 ++ x.2.flatMap spVals
+  | .vec v => v
+
 /-! dump parsers (harness `dumpObj`) -/
 def pMat (r c : Nat) : P (Mat Rat) := P.rep (P.rep P.q c) r
 def pMat3 (k r c : Nat) : P (List (Mat Rat)) := P.rep (pMat r c) k
@@ -235,6 +254,7 @@ def rt : P String := do
     -- writer: model text (at the precisions found in the source) vs the library's text, token by token
     let v := v.diffIf (writeObj prec x != text) s!"{comp} writer model and impl texts differ"
     let v := v.diffIf (!(validObj sh x)) s!"{comp} generator object not valid in the model"
+    let v := v.diffIf (!((objValues x).all isDblB)) s!"{comp} generator object holds a number that is not a finite double (hypothesis IsDbl)"
     -- the trusted hypothesis of the round-trip theorems, evaluated on this object: written at 17 digits (and with the
     -- count read as an integer) the model must read back exactly x
     let rt17 := match readObj false kind sh with
